@@ -135,11 +135,23 @@ func libEval(e ast.Expr, env map[string]ast.Term) exprObs {
 	return o
 }
 
+var c06HalfWay = []ast.Expr{
+	{ast.OV(ast.Int(1)), ast.OV(ast.Int(1000)), ast.OV(ast.Int(0)), ast.OB(ast.BDiv), ast.OB(ast.BLessThan)},
+	{ast.OV(ast.Int(40)), ast.OV(ast.Int(2)), ast.OU(ast.UNegate), ast.OB(ast.BAdd)},
+	{ast.OV(ast.Int(7)), ast.OV(ast.Var("unbound")), ast.OB(ast.BAdd)},
+	{ast.OV(ast.Int(1)), ast.OV(ast.Bool(true))},
+}
+
 // c06Compare applies the oracle to one evaluation; cell is the stable description of the
 // operator and operand kinds (or sequence class) used in violation keys.
 func c06Compare(c *core.C, cell string, e ast.Expr, env map[string]ast.Term) string {
 	c.Eval(1)
 	want := ref.EvalExpr(e, env)
+	if len(e)%3 == 1 {
+		// an evaluation that fails half-way, operands still waiting (1 < 1000 / 0;  40 + !2),
+		// comes first: what it leaves behind must not reach the evaluation that is judged
+		libEval(c06HalfWay[len(e)/3%len(c06HalfWay)], nil)
+	}
 	got := libEval(e, env)
 	wit := func() any {
 		return map[string]any{"expr": e.Key(), "env": core.JSON(env), "reference": resText(want), "library": obsText(got)}
@@ -219,6 +231,27 @@ func c06Run(c *core.C) {
 					c.Violate("expr-variable-vs-literal/"+cell, "binding operands through variables changes the outcome", map[string]any{"l": l.Key(), "r": r.Key(), "op": ast.BinaryNames[op]})
 				}
 			}
+		}
+		if op == ast.BEqual {
+			// equality is symmetric whatever one thinks of sets written with repeated members:
+			// a == b and b == a agree (same value, or both errors)
+			pool := append(append([]ast.Term{}, c06Pool...),
+				ast.SetOf(ast.Int(1), ast.Int(1), ast.Int(2)), ast.SetOf(ast.Int(1), ast.Int(2), ast.Int(3)), ast.SetOf(ast.Int(1), ast.Int(2), ast.Int(2)),
+				ast.SetOf(ast.Str("a"), ast.Str("a")), ast.SetOf(ast.Str("a"), ast.Str("b")), ast.SetOf(ast.Bytes([]byte{1}), ast.Bytes([]byte{1})), ast.SetOf(ast.Bytes([]byte{1}), ast.Bytes([]byte{2})))
+			for _, l := range pool {
+				for _, r := range pool {
+					c.Eval(1)
+					ab := libEval(ast.Expr{ast.OV(l), ast.OV(r), ast.OB(op)}, nil)
+					ba := libEval(ast.Expr{ast.OV(r), ast.OV(l), ast.OB(op)}, nil)
+					if ab.Panic != nil || ba.Panic != nil {
+						continue // reported by the table above
+					}
+					if (ab.Err == "") != (ba.Err == "") || (ab.Val != nil && ba.Val != nil && ab.Val.Key() != ba.Val.Key()) {
+						c.Violate("expr-equality-not-symmetric/"+kindTag(l)+","+kindTag(r), fmt.Sprintf("%s == %s gives %s, %s == %s gives %s", l.Key(), r.Key(), obsText(ab), r.Key(), l.Key(), obsText(ba)), map[string]any{"l": l.Key(), "r": r.Key()})
+					}
+				}
+			}
+			c.Count("equality_symmetry_pairs", len(pool)*len(pool))
 		}
 		c.Sample(map[string]any{"kind": "exhaustive binary table", "operator": ast.BinaryNames[op], "operands": len(c06Pool) * len(c06Pool)})
 	case c.Idx == ast.NumBinary:
